@@ -91,7 +91,8 @@ Proof.
   destruct b; simpl in Hk; inversion Hk; subst; clear Hk; simpl in Ha;
     first [ apply arg2_ok in Ha; destruct Ha as [x [y [rest [-> Ha]]]]
           | apply arg1_ok in Ha; destruct Ha as [x [rest [-> Ha]]]
-          | discriminate Ha ];
+          | discriminate Ha
+          | idtac ];
     try (inversion Ha; subst; reflexivity).
   - (* / Int *) destruct (vint y =? 0); try discriminate Ha; inversion Ha; subst; reflexivity.
   - (* abs *) destruct (vint x >? 0) eqn:E.
@@ -99,6 +100,19 @@ Proof.
     + inversion Ha; subst; reflexivity.
   - (* / Duration Int *) destruct (vint y =? 0); try discriminate Ha; inversion Ha; subst; reflexivity.
   - (* int(String) *) destruct (parse_int (vstr x)); inversion Ha; subst; reflexivity.
+  - (* abstract body: the wrapper enforces the kinds *)
+    destruct (Nat.ltb (length vs) nargs); [discriminate Ha|].
+    destruct (f vs) as [r| |]; try discriminate Ha. match type of Ha with context [if ?c then _ else _] => destruct c eqn:K end; [|discriminate Ha].
+    inversion Ha; subst. exact K.
+Qed.
+
+Lemma body_args_needed b vs v : apply_body b vs = Ok v -> (body_min_args b <= length vs)%nat.
+Proof.
+  intros Ha. destruct b; simpl in Ha;
+    first [ apply arg2_ok in Ha; destruct Ha as [x [y [rest [-> Ha]]]]; simpl; lia
+          | apply arg1_ok in Ha; destruct Ha as [x [rest [-> Ha]]]; simpl; lia
+          | discriminate Ha
+          | simpl; destruct (Nat.ltb (length vs) nargs) eqn:Q; [discriminate Ha|apply Nat.ltb_ge in Q; exact Q] ].
 Qed.
 
 Lemma body_ident_sound b vs v :
@@ -210,17 +224,17 @@ Proof.
     + eapply IH; eassumption.
 Qed.
 
-Definition sound (ctx : vctx) (e : pexpr) : Prop :=
-  forall v, peval ctx e = Ok v -> has_type v (ptype e) = true.
+Definition sound (orc : oracle) (ctx : vctx) (e : pexpr) : Prop :=
+  forall v, peval orc ctx e = Ok v -> has_type v (ptype e) = true.
 
-Lemma Forall_sound_args env ctx args :
-  Forall (fun e => pwt env e = true -> sound ctx e) args -> forallb (pwt env) args = true ->
-  forall a, In a args -> sound ctx a.
+Lemma Forall_sound_args orc env ctx args :
+  Forall (fun e => pwt env e = true -> sound orc ctx e) args -> forallb (pwt env) args = true ->
+  forall a, In a args -> sound orc ctx a.
 Proof.
   intros F W a Hin. rewrite Forall_forall in F. rewrite forallb_forall in W. apply F; [assumption|apply W; assumption].
 Qed.
 
-Theorem pwt_sound env ctx : ctx_conforms ctx env = true -> forall e, pwt env e = true -> sound ctx e.
+Theorem pwt_sound orc env ctx : ctx_conforms ctx env = true -> forall e, pwt env e = true -> sound orc ctx e.
 Proof.
   intros Hctx. induction e as [t cv|t l i|t d args H|t args H|t args H|t args H|t g e IHe|t g e IHe] using pexpr_ind'; intros W v Hv; unfold peval in Hv; simpl in *.
   - (* const *) inversion Hv; subst. assumption.
@@ -231,9 +245,9 @@ Proof.
     destruct (nth_error frame i) as [x|] eqn:Ex; [|discriminate Hv]. inversion Hv; subst.
     eapply sty_sub_type; [eassumption|]. eapply row_conforms_nth; eassumption.
   - (* call *)
-    apply andb_prop in W. destruct W as [W Wout]. apply andb_prop in W. destruct W as [Wargs Wmod].
-    pose proof (Forall_sound_args env ctx args H Wargs) as Hs.
-    destruct (evals (eval ctx) (map materialize args)) as [vs| |] eqn:Ev; try discriminate Hv. simpl in Hv.
+    apply andb_prop in W. destruct W as [Wargs Wout].
+    pose proof (Forall_sound_args orc env ctx args H Wargs) as Hs.
+    destruct (evals (eval ctx) (map (materialize orc) args)) as [vs| |] eqn:Ev; try discriminate Hv. simpl in Hv.
     destruct (null_check vs (null_check_indices d (map ptype args))) as [hit| |] eqn:Nc; try discriminate Hv.
     simpl in Hv. unfold call_out_ok in Wout. apply andb_prop in Wout. destruct Wout as [Wnull Wk].
     destruct hit.
@@ -241,15 +255,18 @@ Proof.
       inversion Hv; subst. rewrite has_type_kind. simpl.
       unfold null_check_indices in Nc. destruct (fd_strict d); [|discriminate Nc].
       apply null_check_true_allows in Nc. rewrite existsb_map' in Nc. simpl in Wnull. rewrite Nc in Wnull. exact Wnull.
-    + destruct (apply_body (body_of d) vs) as [r|e|p] eqn:Ab; try discriminate Hv.
+    + destruct (apply_body (body_of orc d) vs) as [r|e|p] eqn:Ab; try discriminate Hv.
       2:{ destruct (e =? E_NOT_MODELLED); discriminate Hv. }
       inversion Hv; subst r. rewrite has_type_kind.
-      destruct (body_result_kinds (body_of d)) as [ks|] eqn:Bk.
+      apply orb_prop in Wk. destruct Wk as [Wshort|Wk].
+      { exfalso. apply Nat.ltb_lt in Wshort. pose proof (body_args_needed _ _ _ Ab) as Hn. rewrite body_min_args_orc in Hn.
+        apply evals_map_ok in Ev. rewrite map_length in Ev. lia. }
+      destruct (body_result_kinds (body_of no_oracle d)) as [ks|] eqn:Bk; rewrite <- (body_kinds_orc orc) in Bk.
       * eapply kinds_in_mem; [eassumption|]. eapply body_kinds_sound; eassumption.
       * destruct (body_ident_sound _ _ _ Bk Ab) as [rest Evs]. subst vs.
         destruct args as [|a args']; [discriminate Ev|]. simpl in Ev.
-        destruct (eval ctx (materialize a)) as [x| |] eqn:Ea; try discriminate Ev. simpl in Ev.
-        destruct (evals (eval ctx) (map materialize args')) as [vs'| |]; try discriminate Ev. simpl in Ev.
+        destruct (eval ctx (materialize orc a)) as [x| |] eqn:Ea; try discriminate Ev. simpl in Ev.
+        destruct (evals (eval ctx) (map (materialize orc) args')) as [vs'| |]; try discriminate Ev. simpl in Ev.
         inversion Ev; subst x vs'. clear Ev.
         assert (Ha : has_type v (ptype a) = true) by (apply (Hs a (or_introl eq_refl)); exact Ea).
         destruct (ptype a) as [|ks] eqn:Pa.
@@ -266,9 +283,9 @@ Proof.
   - (* and *)
     apply andb_prop in W. destruct W as [W Wn]. apply andb_prop in W. destruct W as [W Wb].
     apply andb_prop in W. destruct W as [Wargs Wsub].
-    pose proof (Forall_sound_args env ctx args H Wargs) as Hs.
+    pose proof (Forall_sound_args orc env ctx args H Wargs) as Hs.
     set (nullable := existsb (fun a => allows_null (ptype a)) args) in *.
-    destruct (and_loop_typed (eval ctx) (map materialize args) nullable false v) as [A B]; [|exact Hv|].
+    destruct (and_loop_typed (eval ctx) (map (materialize orc) args) nullable false v) as [A B]; [|exact Hv|].
     + intros x r Hin Er. apply in_map_iff in Hin. destruct Hin as [a [<- Hin]].
       pose proof (Hs a Hin r Er) as Ht. rewrite forallb_forall in Wsub.
       pose proof (sty_sub_type _ _ r (Wsub a Hin) Ht) as Hb. split; [apply has_type_bool_null_tv; exact Hb|].
@@ -279,9 +296,9 @@ Proof.
   - (* or *)
     apply andb_prop in W. destruct W as [W Wn]. apply andb_prop in W. destruct W as [W Wb].
     apply andb_prop in W. destruct W as [Wargs Wsub].
-    pose proof (Forall_sound_args env ctx args H Wargs) as Hs.
+    pose proof (Forall_sound_args orc env ctx args H Wargs) as Hs.
     set (nullable := existsb (fun a => allows_null (ptype a)) args) in *.
-    destruct (or_loop_typed (eval ctx) (map materialize args) nullable false v) as [A B]; [|exact Hv|].
+    destruct (or_loop_typed (eval ctx) (map (materialize orc) args) nullable false v) as [A B]; [|exact Hv|].
     + intros x r Hin Er. apply in_map_iff in Hin. destruct Hin as [a [<- Hin]].
       pose proof (Hs a Hin r Er) as Ht. rewrite forallb_forall in Wsub.
       pose proof (sty_sub_type _ _ r (Wsub a Hin) Ht) as Hb. split; [apply has_type_bool_null_tv; exact Hb|].
@@ -291,20 +308,20 @@ Proof.
       rewrite C in Wn. exact Wn.
   - (* coalesce *)
     apply andb_prop in W. destruct W as [W Wn]. apply andb_prop in W. destruct W as [Wargs Wsub].
-    pose proof (Forall_sound_args env ctx args H Wargs) as Hs.
+    pose proof (Forall_sound_args orc env ctx args H Wargs) as Hs.
     destruct (coalesce_loop_result _ _ _ Hv) as [A B]. rewrite forallb_forall in Wsub.
     destruct (is_null v) eqn:N.
     + apply null_value in N. subst v. rewrite has_type_kind. simpl.
       apply orb_prop in Wn. destruct Wn as [Wn|Wn]; [exact Wn|]. exfalso.
       apply existsb_exists in Wn. destruct Wn as [a [Hin Hna]].
-      assert (Ea : peval ctx a = Ok VNull) by (apply (B eq_refl); apply in_map; exact Hin).
+      assert (Ea : peval orc ctx a = Ok VNull) by (apply (B eq_refl); apply in_map; exact Hin).
       pose proof (Hs a Hin VNull Ea) as Ht. rewrite has_type_kind in Ht. simpl in Ht.
       rewrite has_kind_null_allows in Ht. rewrite Ht in Hna. discriminate Hna.
     + destruct (A eq_refl) as [x [Hin Ex]]. apply in_map_iff in Hin. destruct Hin as [a [<- Hin]].
       eapply sty_sub_type; [apply Wsub; exact Hin|]. apply (Hs a Hin). exact Ex.
   - (* assert *)
     apply andb_prop in W. destruct W as [Wa Ws].
-    destruct (eval ctx (materialize e)) as [x| |] eqn:Ee; try discriminate Hv. simpl in Hv.
+    destruct (eval ctx (materialize orc e)) as [x| |] eqn:Ee; try discriminate Hv. simpl in Hv.
     destruct (kmem (tid x) (expected_ids g)) eqn:M; [|discriminate Hv]. inversion Hv; subst x.
     pose proof (IHe Wa v Ee) as Ht. rewrite has_type_kind in *. unfold assert_sub in Ws.
     destruct (ptype e) as [|ks].
@@ -313,7 +330,7 @@ Proof.
       split; [apply kmem_true; exact Ht|exact M].
   - (* cast *)
     apply andb_prop in W. destruct W as [W Wid]. apply andb_prop in W. destruct W as [Wa Wn].
-    destruct (eval ctx (materialize e)) as [x| |] eqn:Ee; try discriminate Hv. simpl in Hv.
+    destruct (eval ctx (materialize orc e)) as [x| |] eqn:Ee; try discriminate Hv. simpl in Hv.
     destruct (negb (tid x =? g)) eqn:Tg; inversion Hv; subst; rewrite has_type_kind.
     + exact Wn.
     + apply negb_false_iff in Tg. apply Z.eqb_eq in Tg. rewrite Tg. exact Wid.
@@ -351,23 +368,23 @@ Proof. unfold kinds_in. rewrite !forallb_forall. intros U H k Hk. apply U. apply
 (* the declared OutputType with the nullable wrap allows everything the (modelled, fixed-kind) body returns
    and the NULL a null check produces *)
 Lemma call_typed_ok d args ks :
-  row_output_ok d = true -> body_result_kinds (body_of d) = Some ks ->
+  row_output_ok d = true -> body_result_kinds (body_of no_oracle d) = Some ks ->
   call_out_ok d args (nullable_wrap d args (fd_out d)) = true.
 Proof.
   intros R Bk. unfold call_out_ok. rewrite Bk. unfold row_output_ok in R. rewrite Bk in R.
   apply andb_true_intro. split.
   - unfold nullable_wrap. destruct (fd_strict d && existsb (fun a => allows_null (ptype a)) args); [|reflexivity].
     apply type_sum_upper_r. reflexivity.
-  - eapply kinds_in_upper; [|exact R]. intros k. apply nullable_wrap_upper.
+  - apply orb_true_intro. right. eapply kinds_in_upper; [|exact R]. intros k. apply nullable_wrap_upper.
 Qed.
 
-Theorem call_sound env ctx d args ks :
+Theorem call_sound orc env ctx d args ks :
   ctx_conforms ctx env = true ->
-  row_output_ok d = true -> desc_modelled d = true -> body_result_kinds (body_of d) = Some ks ->
+  row_output_ok d = true -> desc_modelled d = true -> body_result_kinds (body_of no_oracle d) = Some ks ->
   forallb (pwt env) args = true ->
-  sound ctx (PCall (nullable_wrap d args (fd_out d)) d args).
+  sound orc ctx (PCall (nullable_wrap d args (fd_out d)) d args).
 Proof.
-  intros Hc R M Bk W. apply (pwt_sound env ctx Hc). simpl. rewrite W, M. simpl.
+  intros Hc R M Bk W. apply (pwt_sound orc env ctx Hc). simpl. rewrite W. simpl.
   eapply call_typed_ok; eassumption.
 Qed.
 
